@@ -92,6 +92,24 @@ fn subsets(ctx: &mut Ctx) {
             ctx.expect_eq("supports.load.subset", || format!("supports_* after loading a {} written with supports {:03b}", what(), subset), &guard(|| supports(&loaded)), &want);
             ctx.checks += 1;
             if loaded != bv { ctx.violation("supports.load.ne", format!("loaded {} (supports {:03b}) is not == to what was written", what(), subset)); }
+            // A fully enabled value of other content overwritten in place with the loaded one (Clone::clone_from): exactly the
+            // loaded value - same bits, same subset of supports - and enabling the rest gives the fully enabled original.
+            if n <= 20_000 || subset == 5 {
+                let mut other_bits: Vec<bool> = bits.iter().map(|b| !*b).collect();
+                other_bits.extend_from_slice(&[true, false, true]);
+                let mut target = mk::bv_set_bit(&other_bits);
+                mk::enable_all(&mut target);
+                match guard(|| { target.clone_from(&loaded); (supports(&target), target == loaded, ser(&target) == bytes) }) {
+                    Ok(got) => {
+                        ctx.checks += 1;
+                        if got != (want, true, true) { ctx.violation("supports.clone_from", format!("a fully enabled bitvector overwritten with clone_from(a {} loaded with supports {:03b}): (supports, ==, same bytes) = {:?}", what(), subset, got)); }
+                        let _ = guard(|| mk::enable_all(&mut target));
+                        ctx.checks += 1;
+                        if target != full || ser(&target) != full_bytes { ctx.violation("supports.clone_from.rebuilt", format!("clone_from(a {} loaded with supports {:03b}) and then enabling the rest is not the fully enabled original", what(), subset)); }
+                    },
+                    Err(p) => ctx.violation("supports.clone_from!panic", format!("{}: {}", what(), p)),
+                }
+            }
             // enable_pred_succ() as the first enabler: whatever was present, predecessor/successor must work afterwards
             // (it has to bring rank and select along), and enabling the rest must still give the fully enabled original.
             {
